@@ -126,6 +126,12 @@ func runC06(cfg Cfg, keys []string, ops []Op, res *TaskResult) *Violation {
 		}
 		switch op.K {
 		case "merge":
+			if ar.Err != nil {
+				// a Merge that reports an error has already removed an earlier finished, not yet adopted merge
+				// directory: nothing is pending any more (the mapping oracle above still applies)
+				pending = nil
+				res.count("merge_errors:"+errClass(ar.Err), 1)
+			}
 			if ar.Err == nil {
 				pending = afterMerge(w)
 				merges++
@@ -260,7 +266,7 @@ func c18Alphabet(c Cfg) []Op {
 		Op{K: "del", Key: "a", Dev: true},
 		Op{K: "batch", Sub: []Op{{K: "put", Key: c18Keys[2], VC: "S"}, {K: "put", Key: "a", VC: "S"}}, Dev: true},
 		Op{K: "restart", Dev: true},
-		Op{K: "merge", Dev: true}, // an earlier merge (adopted by a later restart): its hint file must be superseded by the next one
+		Op{K: "merge", Dev: true},              // an earlier merge (adopted by a later restart): its hint file must be superseded by the next one
 		Op{K: "restartfs", Arg: 64, Dev: true}, // reopen with a smaller limit: the merge output may need more files than its input
 	)
 	return a
